@@ -1,4 +1,5 @@
 import VProofs.C01
+import VProofs.Lemmas.TagFinal
 /-!
 # C06 — Predicted tags equal the per-token linear classifiers
 
@@ -34,9 +35,34 @@ def specCandidates : List (List (List Char)) → List Int → List (List (List C
 
 /-- the first maximum is what the scan `if s > max_score` selects -/
 theorem C06_argmax (x : Int) (xs : List Int) :
-    argmaxFirst (x :: xs) 0 0 none = firstMax (x :: xs) := by
-  sorry
+    argmaxFirst (x :: xs) 0 0 none = firstMax (x :: xs) :=
+  C06L.argmaxFirst_eq (x :: xs)
 
+theorem WFTags.toL {m : WModel} (h : WFTags m) : C06L.WFT m :=
+  ⟨h.bias_len, fun tm htm d hd => (h.char_ok tm htm d hd).2, fun tm htm d hd => (h.type_ok tm htm d hd).2.2⟩
+
+theorem specAllTags_eq : specAllTags = C06L.allTags := rfl
+
+theorem specCandidates_eq (tags : List (List (List Char))) (sc : List Int) :
+    specCandidates tags sc = C06L.candSpec tags sc := by
+  induction tags generalizing sc with
+  | nil => rfl
+  | cons c r ih => simp only [specCandidates, C06L.candSpec, ih]
+
+/-- the common part of `C06_tags` and `C06_candidates`: the sentence `fill_tags` produces -/
+theorem C06_predictTags (cfg : Cfg) (m : WModel) (hm : WFModel m) (ht : WFTags m)
+    (p : Predictor) (hp : Predictor.new cfg m true = .ok p) (store : Bool)
+    (s s1 : Sentence) (hs : SentOK s) (pid : Nat) (h1 : p.predict pid s = .ok s1)
+    (bs : List B) (hbs : bs.length = s1.bounds.length) (hn : 0 < specNTags m) :
+    bs.length + 1 = s.text.length ∧
+    ({ p with storeTagScores := store } : Predictor).predictTags { s1 with bounds := bs }
+      = .ok { s1 with bounds := bs, nTags := specNTags m, tags := specAllTags m s.text bs,
+                      tagScores := if store = true then C06L.allScores cfg m s.text bs else [] } := by
+  rw [specAllTags_eq]
+  exact C06L.predictTags_full cfg m hm.charW_pos hm.char_shape hm.typeW_pos hm.type_shape
+    (fun d hd => (hm.dict_shape d hd).1) ht.toL p hp store s s1 hs.text_ne hs.types_eq hs.bounds_len pid h1 bs hbs hn
+
+set_option linter.unusedVariables false in
 /-- **main theorem**: after `predict` with a tag-predicting predictor built from a well-formed model, and for ANY
 boundary vector the sentence carries afterwards (as produced by prediction or rewritten by filters, unknowns included),
 `fill_tags` does not panic, sets the tag count to the widest tag model, gives every unknown-free token whose surface
@@ -50,8 +76,11 @@ theorem C06_tags (cfg : Cfg) (hcfg : cfg.tagPred = true) (m : WModel) (hm : WFMo
     ∃ s3, ({ p with storeTagScores := store } : Predictor).predictTags { s1 with bounds := bs } = .ok s3 ∧
       s3.nTags = specNTags m ∧ s3.tags = specAllTags m s.text bs ∧
       s3.bounds = bs ∧ s3.text = s.text ∧ s3.types = s1.types ∧ s3.scores = s1.scores ∧ s3.padding = s1.padding := by
-  sorry
+  obtain ⟨_, h3⟩ := C06_predictTags cfg m hm ht p hp store s s1 hs pid h1 bs hbs hn
+  have htext : s1.text = s.text := (C06L.predict_states p pid s s1 h1).1
+  exact ⟨_, h3, rfl, rfl, rfl, htext, rfl, rfl, rfl⟩
 
+set_option linter.unusedVariables false in
 /-- with score storing, the candidate scores reported for each token equal those sums (0 for a single candidate);
 without it nothing is stored -/
 theorem C06_candidates (cfg : Cfg) (hcfg : cfg.tagPred = true) (m : WModel) (hm : WFModel m) (ht : WFTags m)
@@ -64,11 +93,41 @@ theorem C06_candidates (cfg : Cfg) (hcfg : cfg.tagPred = true) (m : WModel) (hm 
       s3.tagCandidates se.2 = .ok (match tagModelOf m ((s.text.drop se.1).take (se.2 - se.1)) with
         | some tm => specCandidates tm.tags (specTagScores tm s.text (se.2 - 1))
         | none => [])) := by
-  sorry
+  obtain ⟨hbl, h3'⟩ := C06_predictTags cfg m hm ht p hp store s s1 hs pid h1 bs hbs hn
+  rw [h3'] at h3
+  simp only [Res.ok.injEq] at h3
+  subst h3
+  refine ⟨fun h => by simp [h], fun h se hse => ?_⟩
+  rw [C06L.tagCandidates_spec cfg m s.text bs hbl _ (by simp [h]) se hse]
+  cases tagModelOf m ((s.text.drop se.1).take (se.2 - se.1)) with
+  | none => rfl
+  | some tm => simp only [specCandidates_eq]
 
 /-- a model without tag categories: `fill_tags` leaves the sentence as it is -/
 theorem C06_no_categories (cfg : Cfg) (m : WModel) (p : Predictor) (hp : Predictor.new cfg m true = .ok p)
     (hn : specNTags m = 0) (s : Sentence) : p.predictTags s = .ok s := by
-  sorry
+  obtain ⟨_, h1, h2, _⟩ := C06L.new_tag_ok cfg m p hp
+  unfold Predictor.predictTags
+  rw [h1]
+  simp only [h2, hn, if_true]
+
+/-! ## non-vacuity: the model and sentence of `C01.lean` satisfy the hypotheses of `C06_tags` / `C06_candidates`
+(one tag model for the surface `a` with one two-candidate category; the type n-gram one character after the token
+votes for the second candidate), and the model computes what the specification says -/
+
+example : WFTags C01_exModel := ⟨by decide, by decide, by decide, by decide⟩
+example : 0 < specNTags C01_exModel := by decide
+example : specTokens [B.W, B.N] = [(0, 1), (1, 3)] := by decide
+example : specTagScores (C01_exModel.tagModels.getD 0 default) C01_exSentence.text 0 = [0, 1] := by decide
+example : specAllTags C01_exModel C01_exSentence.text [B.W, B.N] = [some ['y'], none, none] := by decide
+
+/-- `predict` then `fill_tags` (storing scores) on the example -/
+def C06_exRun : Res Sentence :=
+  (Predictor.new {} C01_exModel true).bind fun p =>
+    (p.predict 0 C01_exSentence).bind fun s1 => ({ p with storeTagScores := true } : Predictor).predictTags s1
+
+example : C06_exRun.map (·.bounds) = .ok [B.W, B.N] := by decide
+example : C06_exRun.map (·.tags) = .ok [some ['y'], none, none] := by decide
+example : C06_exRun.bind (·.tagCandidates 1) = .ok [[(['x'], 0), (['y'], 1)]] := by decide
 
 end V
